@@ -3,19 +3,23 @@
 import os
 D = os.path.dirname(os.path.abspath(__file__))
 FLAGS = ["FixSubChange", "FixHbRefresh", "DevHbNoGen", "DevSyncNoGen", "DevCommitNoGen", "DevJoinOkEarly", "DevAssignAllMembers",
-         "DevRestoreDropsAsg", "DevRestoreGenZero", "DevExpireIgnoresHb", "DevNoLaggerDrop", "DevNoExpire"]
+         "DevRestoreDropsAsg", "DevRestoreGenZero", "DevExpireIgnoresHb", "DevNoLaggerDrop", "DevNoExpire",
+         "DevLaggerSkippedOnExpiry", "DevSyncRefusesIdle", "DevHbWriteUnlocked", "DevCleanupWriteUnlocked", "DevSyncLookupUnlocked"]
 PROPS = ["C12_OnlySubscribed", "C12_ExactlyOne", "C12_ReplyFromMap", "C12_OneMapPerGen", "C13_StaleRejected", "C13_StaleNoCommit",
          "C13_GenMonotone", "C13_ReplyGen", "C14_JoinOK", "C14_Leader", "C14_ListOnlyLeader", "C14_SyncAfterLeader",
-         "C15_RestoreEqual", "C15_KeepWorking", "C43_RemovedJustified", "C43_NoOverdue", "C43_Rebalances"]
+         "C15_RestoreEqual", "C15_NotFenced", "C15_KeepWorking", "C43_RemovedJustified", "C43_NoOverdue", "C43_Rebalances"]
 INTERNAL = ["StoreInSync", "LeaderIsMember", "AsgOnlyStable", "HbIsAlive"]
+S2 = '{{"t1"},{"t1","t2"}}'
+S3 = '{{"t1"},{"t2"},{"t1","t2"}}'
+ST2 = '{{"t2"},{"t1","t2"}}'   # two members on the single partition of t2: one of them gets nothing
 
 
-def consts(members, subs, nparts, keept, maxclock, maxgen, flip=None, sess=2, reb=2):
+def consts(members, subs, nparts, keept, maxclock, maxgen, flips=(), sess="{2}", reb=2):
     fl = {f: (f.startswith("Fix")) for f in FLAGS}
-    if flip:
-        fl[flip] = not fl[flip]
+    for f in flips:
+        fl[f] = not fl[f]
     out = ["CONSTANTS", " Members = {%s}" % ",".join('"%s"' % m for m in members), ' Topics = {"t1","t2"}', " NParts <- %s" % nparts,
-           " SubsChoices = %s" % subs, " CommitTP <- CTP", " SessT = %d" % sess, " RebT = %d" % reb, " DefT = 30",
+           " SubsChoices = %s" % subs, " CommitTP <- CTP", " SessChoices = %s" % sess, " RebT = %d" % reb, " DefT = 30",
            " KeepT = %s" % keept, " MaxClock = %d" % maxclock, " MaxGen = %d" % maxgen]
     out += [" %s = %s" % (f, "TRUE" if v else "FALSE") for f, v in fl.items()]
     return "\n".join(out) + "\n"
@@ -35,27 +39,40 @@ def mc(name, c, props=PROPS, internal=INTERNAL, view=True, constraint=True, extr
     open(os.path.join(D, name), "w").write(s)
 
 
-S2 = '{{"t1"},{"t1","t2"}}'
-S3 = '{{"t1"},{"t2"},{"t1","t2"}}'
 # KeepT = {TRUE}: the in-memory store keeps the timeouts since the cloneConsumerGroup fix (C17); {FALSE} = the older store, kept in thorough2.
-# measured with KeepT={FALSE} (16 workers, idle machine): quick 35 747 distinct / 723 028 transitions; 2 members, session 2, clock 3: 103 556 / 2 107 072 (82 s);
-# 3 members, session 2, clock 3, gen 3, KeepT both: 5 635 138 / 214 881 644 (24 min with 8 workers on a loaded machine) - too slow for a tier
 mc("MC_Group_quick.cfg", consts(["m1", "m2"], S2, "NP21", "{TRUE}", 3, 3), props=["AllC"])
-mc("MC_Group_thorough.cfg", consts(["m1", "m2", "m3"], S2, "NP21", "{TRUE}", 2, 3, sess=1, reb=1), props=["AllC"])
+mc("MC_Group_thorough.cfg", consts(["m1", "m2", "m3"], S2, "NP21", "{TRUE}", 2, 3, sess="{1}", reb=1), props=["AllC"])
 mc("MC_Group_thorough2.cfg", consts(["m1", "m2"], S2, "NP21", "{TRUE,FALSE}", 3, 3), props=["AllC"])
-DEV = {"SubChange": ("FixSubChange", "C12"), "AssignAllMembers": ("DevAssignAllMembers", "C12"),
-       "HbNoGen": ("DevHbNoGen", "C13"), "SyncNoGen": ("DevSyncNoGen", "C13"), "CommitNoGen": ("DevCommitNoGen", "C13"),
-       "JoinOkEarly": ("DevJoinOkEarly", "C14"),
-       "RestoreDropsAsg": ("DevRestoreDropsAsg", "C15"), "RestoreGenZero": ("DevRestoreGenZero", "C15"),
-       "HbRefresh": ("FixHbRefresh", "C43"), "ExpireIgnoresHb": ("DevExpireIgnoresHb", "C43"),
-       "NoLaggerDrop": ("DevNoLaggerDrop", "C43"), "NoExpire": ("DevNoExpire", "C43")}
-for n, (f, pid) in DEV.items():   # a deviation config lists only the predicates of the property it must break
-    mc("Dev_Group_%s.cfg" % n, consts(["m1", "m2"], S2, "NP21", "{TRUE}", 4, 4, flip=f), props=[p for p in PROPS if p.startswith(pid)], internal=[])
-open(os.path.join(D, "Sim_Group.cfg"), "w").write(
-    consts(["m1", "m2", "m3"], S3, "NP32", "{TRUE}", 1000, 1000) + "INIT Init\nNEXT Next\nINVARIANTS EmitSched\nPROPERTIES " + " ".join(PROPS) + "\nCHECK_DEADLOCK FALSE\n")
+# per-member session timeouts (longer than the rebalance timeout) and the idle-member subscriptions, exhaustively (thorough)
+mc("MC_Group_thorough3.cfg", consts(["m1", "m2"], ST2, "NP21", "{TRUE}", 3, 2, sess="{1,3}", reb=2), props=["AllC"])
 
+# name -> (flag, property, overrides): a deviation config lists only the predicates of the property it must break
+DEV = {
+    "SubChange": ("FixSubChange", "C12", {}), "AssignAllMembers": ("DevAssignAllMembers", "C12", {}),
+    "SyncLookupUnlocked": ("DevSyncLookupUnlocked", "C12", {}),
+    "HbNoGen": ("DevHbNoGen", "C13", {}), "SyncNoGen": ("DevSyncNoGen", "C13", {}), "CommitNoGen": ("DevCommitNoGen", "C13", {}),
+    "HbWriteUnlocked": ("DevHbWriteUnlocked", "C13", {}),
+    "JoinOkEarly": ("DevJoinOkEarly", "C14", {}),
+    "RestoreDropsAsg": ("DevRestoreDropsAsg", "C15", {}), "RestoreGenZero": ("DevRestoreGenZero", "C15", {}),
+    "SyncRefusesIdle": ("DevSyncRefusesIdle", "C15", {"subs": ST2}),
+    "CleanupWriteUnlocked": ("DevCleanupWriteUnlocked", "C15", {}),
+    "HbRefresh": ("FixHbRefresh", "C43", {}), "ExpireIgnoresHb": ("DevExpireIgnoresHb", "C43", {}),
+    "NoLaggerDrop": ("DevNoLaggerDrop", "C43", {}), "NoExpire": ("DevNoExpire", "C43", {}),
+    # the lagger's session (6) outlasts the rebalance timeout (3), the other member's session (2) lapses in the deadline tick
+    "LaggerSkippedOnExpiry": ("DevLaggerSkippedOnExpiry", "C43", {"sess": "{2,6}", "reb": 3, "clock": 4}),
+}
+for n, (f, pid, o) in DEV.items():
+    mc("Dev_Group_%s.cfg" % n,
+       consts(["m1", "m2"], o.get("subs", S2), "NP21", "{TRUE}", o.get("clock", 4), 4, flips=[f], sess=o.get("sess", "{2}"), reb=o.get("reb", 2)),
+       props=[p for p in PROPS if p.startswith(pid)], internal=[])
+
+SIMTAIL = "INIT Init\nNEXT %s\nINVARIANTS EmitSched\nPROPERTIES " + " ".join(PROPS) + "\nCHECK_DEADLOCK FALSE\n"
+open(os.path.join(D, "Sim_Group.cfg"), "w").write(consts(["m1", "m2", "m3"], S3, "NP32", "{TRUE}", 1000, 1000) + SIMTAIL % "Next")
+open(os.path.join(D, "Sim_Group_clock.cfg"), "w").write(consts(["m1", "m2", "m3"], S3, "NP32", "{TRUE}", 1000, 1000, sess="{2,4}") + SIMTAIL % "NextClock")
+# all three "store I/O outside the lock" designs at once, no properties: the schedules contain hold/Release steps at random places.
+# On a tree that does its store I/O under c.mu every hold degenerates into the plain sequential call.
+open(os.path.join(D, "Sim_Group_race.cfg"), "w").write(
+    consts(["m1", "m2", "m3"], S2, "NP32", "{TRUE}", 1000, 1000, flips=["DevHbWriteUnlocked", "DevCleanupWriteUnlocked", "DevSyncLookupUnlocked"])
+    + "INIT Init\nNEXT NextRace\nINVARIANTS EmitSched\nCHECK_DEADLOCK FALSE\n")
 open(os.path.join(D, "Trace_Group.cfg"), "w").write(
-    consts(["m1", "m2", "m3"], S3, "NP21", "{TRUE,FALSE}", 1000000, 1000000) + "INIT TInit\nNEXT TNext\nPOSTCONDITION Reached\nCHECK_DEADLOCK FALSE\n")
-
-open(os.path.join(D, "Sim_Group_clock.cfg"), "w").write(
-    consts(["m1", "m2", "m3"], S2, "NP32", "{TRUE}", 1000, 1000) + "INIT Init\nNEXT NextClock\nINVARIANTS EmitSched\nPROPERTIES " + " ".join(PROPS) + "\nCHECK_DEADLOCK FALSE\n")
+    consts(["m1", "m2", "m3"], S3, "NP21", "{TRUE,FALSE}", 1000000, 1000000, sess="{2}") + "INIT TInit\nNEXT TNext\nPOSTCONDITION Reached\nCHECK_DEADLOCK FALSE\n")
